@@ -156,7 +156,12 @@ def foreign_paths(rng):
     home = '/home/u'
     cases = [('work/link/../report.txt', 'work/archive/report.txt'), ('work//report.txt', 'work/report.txt'), ('work/./report.txt', 'work/report.txt'),
              ('work/archive/2024/../report.txt', 'work/archive/report.txt')]
-    for (spelled, real), occupied, pk in itertools.product(cases, (True, False), ('f', 'd')):
+    # '..' after a directory that does not exist (yet): the existence probe cannot see through it, creating the parents must not paper
+    # over that - with something at the place behind it the entry is refused (only the occupied case is judged: with nothing
+    # there the kernel has no answer to what the path designates)
+    cases_occupied_only = [('work/new/../report.txt', 'work/report.txt')]
+    for (spelled, real), occupied, pk in (list(itertools.product(cases, (True, False), ('f', 'd'))) +
+                                          list(itertools.product(cases_occupied_only, (True,), ('f', 'd')))):
         td = home + '/.local/share/Trash'
         nodes = scen.canary() + [['d', home + '/work/archive/2024', 0o755], ['l', home + '/work/link', 'archive/2024']]
         nodes += scen.entry(td, 'report.txt', home + '/' + spelled, '2024-01-02T00:00:00', pk)
